@@ -152,10 +152,10 @@ class Rejected(Exception):
 
 def run_main(argv, return_mininec=True):
     """returns (retval, stdout, stderr) ; exceptions propagate"""
-    out, err = io.StringIO(), io.StringIO()
-    with contextlib.redirect_stdout(out):
+    out, err, err2 = io.StringIO(), io.StringIO(), io.StringIO()
+    with contextlib.redirect_stdout(out), contextlib.redirect_stderr(err2):
         r = mm.main(list(argv), f_err=err, return_mininec=return_mininec)
-    return r, out.getvalue(), err.getvalue()
+    return r, out.getvalue(), err.getvalue() + err2.getvalue()
 
 
 def model(case, with_sources=True):
